@@ -32,6 +32,12 @@ def gen_value(rng, i, tier):
         # serialisation-buffer boundaries: one string inside a list, lengths around 512-byte multiples
         n = rng.choice(list(range(228, 262)) + list(range(356, 392)) + [0, 1, 255, 256, 511, 512, 513, 1023, 1024])
         return ('list', (('char', 'x' * n, True),))
+    if fam == 1 and (i // 10) % len(PATHS) == PATHS.index('parse') and (i // 60) % 4 == 1:
+        # a value longer than the parser's working buffer (131 200 units), every line within the line limit: the
+        # buffer has to be enlarged while the token - which does not start at its beginning - is being scanned
+        filler = rng.choice(['abcdefghij', 'caf\u00e9 \u0394x ', 'q\U0001f600r '])
+        lines = ['L%05d:%s' % (k, (filler * 160)[:rng.choice([900, 1500, 2000])]) for k in range(rng.choice([80, 110, 160]))]
+        return ('char', '\n'.join(lines), True)
     if fam == 1:
         n = rng.choice([0, 1, 2, 255, 256, 257, 511, 512, 513, 4095, 4096, 4097, 70000 if rng.random() < 0.05 else 300])
         ch = rng.choice(['a', 'é', '\U0001f600', '\n', ' ', "'", '"', ';'])
